@@ -16,6 +16,9 @@ Clauses (``<sub>.<what>``):
 
 * ``*.internal_error``     validate()/valid()/Scheme.validate() raised on the (mutated) model
 * ``*.unreported[...]``    the mutated model is reported valid, or the report does not name the label
+* ``hist.unreported_after[op]``   on one live model object: after in-place edit ``op`` a label dangles, the next validation call
+  reports valid / does not name it (stale or incomplete answer); ``hist.reports_issue_after[op]``: every reference resolves
+  again after ``op`` and an issue is still reported; ``hist.internal_error``
 * ``valid.reports_issue``  the unmutated model (all references resolve) is reported invalid
 * ``valid.fill_lookup`` / ``valid.evaluate_lookup``  lookup error while filling / evaluating a validated model
 * ``valid.generated_parameters``  ``validate(model.generate_parameters())`` reports a missing parameter
@@ -571,6 +574,260 @@ def prop_valid(case):
 
 
 # ------------------------------------------------------------------------------------------
+# histories: ONE model object and ONE Parameters object, edited in place between validations
+#
+# "Validating a model reports ..." is a statement about the model as it is at the time of the call.  Model
+# items are plain mutable attrs objects and the sections of a model plain dicts / lists, so the same model
+# object can be validated, edited (a reference misspelled or repaired, a definition deleted or put back, a
+# parameter removed from / returned to the same Parameters object, a unique megacomplex listed twice) and
+# validated again - through any of the validation entry points, with or without parameters.  The oracle keeps
+# a JSON mirror of the edits and recomputes, from REFS alone, what dangles *now*.
+
+DEF_SECTIONS = ["irf", "initial_concentration", "k_matrix", "shape", "megacomplex", "dataset_groups"]
+EDIT_OPS = {"rename", "repair", "del_def", "restore_def", "del_param", "restore_param", "dup_unique", "undup"}
+
+
+def expected_issues(spec: dict, params) -> tuple[list, list, list]:
+    """(dangling item references, dangling parameter references, unique violations) of ``spec`` - from REFS only."""
+    poss = positions(spec, with_group=True)
+    items = [p for p in poss if p["kind"] == "item" and p["label"] not in defined_labels(spec, p["target"])]
+    pars = [p for p in poss if p["kind"] == "param" and p["label"] not in params]
+    uniq = []
+    mcs = spec["megacomplex"]
+    for dl, ds in spec["dataset"].items():
+        for attr in ("megacomplex", "global_megacomplex"):
+            defined = [lab for lab in ds.get(attr) or [] if lab in mcs]  # undefined labels are dangling references, not typed
+            for typ in sorted(UNIQUE_TYPES):
+                same = [lab for lab in defined if mcs[lab]["type"] == typ]
+                if len(same) > 1:
+                    uniq.append({"where": f"dataset/{dl}/{attr}", "labels": same, "type": typ})
+    return items, pars, uniq
+
+
+def _get_path(spec, path, default=None):
+    """The value at ``path``; ``default`` when the path does not exist (its holder's definition is deleted at present)."""
+    node = spec
+    for p in path:
+        try:
+            node = node[p]
+        except (KeyError, IndexError):
+            return default
+    return node
+
+
+class _Live:
+    """The live glotaran objects of one history and the JSON mirror the oracle reads."""
+
+    def __init__(self, case):
+        from glotaran.parameter import Parameter
+        from glotaran.parameter import Parameters
+        from glotaran.project import Scheme
+
+        with warnings.catch_warnings():
+            warnings.simplefilter("ignore")
+            self.model = G.build_model(case["spec"])
+        # Parameters has no public add / remove; it serves the dictionary it was constructed with.  Every edit of
+        # that dictionary is confirmed through the public ``Parameters.has`` before the mirror follows it.
+        self.pdict = {
+            lab: Parameter(label=lab, value=float(v), vary=lab in case["free"], non_negative=False)
+            for lab, v in case["params"].items()
+        }
+        self.params = Parameters(self.pdict)
+        self.scheme = Scheme(self.model, self.params, {})  # a second handle onto the same two objects
+        self.spec = copy.deepcopy(case["spec"])
+        for ds in self.spec["dataset"].values():
+            ds.setdefault("group", "default")  # DatasetModel.group: str = "default"
+        self.mparams = dict(case["params"])
+        self.orig: dict = {}  # path -> label before the first rename
+        self.stash_defs: list = []  # (section, label, live item, mirror entry)
+        self.stash_params: list = []  # (label, Parameter, value)
+        self.dups: list = []  # (dataset label, attribute)
+        self.trail: list[str] = []
+        self.notes: set = set()
+
+    # ---- one in-place edit of a reference position, live object and mirror alike
+    def set_ref(self, path, value):
+        section, key, attr = path[:3]
+        item = getattr(self.model, section)[key]
+        if len(path) == 3:
+            setattr(item, attr, value)
+        elif len(path) == 4:
+            getattr(item, attr)[path[3]] = value
+        else:  # K-matrix: JSON triple [to, from, label] <-> dict keyed by (to, from)
+            to, frm, _ = self.spec[section][key][attr][path[3]]
+            getattr(item, attr)[(to, frm)] = value
+        _get_path(self.spec, path[:-1])[path[-1]] = value
+
+    def apply(self, step) -> str:
+        """Returns the name of the edit that took place (``noop`` when the operation has no candidate)."""
+        op, i, spec = step["op"], step["i"], self.spec
+        if op == "rename":
+            cands = positions(spec, with_group=True)
+            if not cands:
+                return "noop"
+            p = cands[i % len(cands)]
+            path = tuple(p["path"])
+            new, vname = fresh_label(spec, self.mparams, p, step["variant"])
+            self.orig.setdefault(path, p["label"])
+            self.set_ref(path, new)
+            self.trail.append(f"rename {'/'.join(map(str, path))}: {p['label']!r} -> {new!r} ({vname})")
+            return op
+        if op == "repair":
+            cands = [path for path in self.orig if _get_path(spec, path) not in (None, self.orig[path])]
+            if not cands:
+                return "noop"
+            path = cands[i % len(cands)]
+            old = self.orig.pop(path)
+            self.trail.append(f"repair {'/'.join(map(str, path))}: {_get_path(spec, path)!r} -> {old!r}")
+            self.set_ref(path, old)
+            return op
+        if op == "del_def":
+            cands = [(s, lab) for s in DEF_SECTIONS for lab in spec.get(s, {}) if not (s == "dataset_groups" and lab == "default")]
+            if not cands:
+                return "noop"
+            s, lab = cands[i % len(cands)]
+            self.stash_defs.append((s, lab, getattr(self.model, s).pop(lab), spec[s].pop(lab)))
+            self.trail.append(f"del_def {s}/{lab}")
+            return op
+        if op == "restore_def":
+            if not self.stash_defs:
+                return "noop"
+            s, lab, obj, entry = self.stash_defs.pop(i % len(self.stash_defs))
+            getattr(self.model, s)[lab] = obj
+            spec[s][lab] = entry
+            self.trail.append(f"restore_def {s}/{lab}")
+            return op
+        if op == "del_param":
+            cands = list(self.mparams)
+            if not cands:
+                return "noop"
+            lab = cands[i % len(cands)]
+            par = self.pdict.pop(lab)
+            if self.params.has(lab):  # the Parameters object does not follow its dictionary: outside what can be edited
+                self.pdict[lab] = par
+                self.notes.add("parameters_not_live")
+                return "noop"
+            self.stash_params.append((lab, par, self.mparams.pop(lab)))
+            self.trail.append(f"del_param {lab!r}")
+            return op
+        if op == "restore_param":
+            if not self.stash_params:
+                return "noop"
+            lab, par, value = self.stash_params[i % len(self.stash_params)]
+            self.pdict[lab] = par
+            if not self.params.has(lab):
+                del self.pdict[lab]
+                self.notes.add("parameters_not_live")
+                return "noop"
+            self.stash_params.pop(i % len(self.stash_params))
+            self.mparams[lab] = value
+            self.trail.append(f"restore_param {lab!r}")
+            return op
+        if op == "dup_unique":
+            mcs = spec["megacomplex"]
+            cands = [
+                (dl, attr, lab)
+                for dl, ds in spec["dataset"].items()
+                for attr in ("megacomplex", "global_megacomplex")
+                for lab in dict.fromkeys(ds.get(attr) or [])
+                if lab in mcs and mcs[lab]["type"] in UNIQUE_TYPES
+            ]
+            if not cands:
+                return "noop"
+            dl, attr, lab = cands[i % len(cands)]
+            getattr(self.model.dataset[dl], attr).append(lab)
+            spec["dataset"][dl][attr].append(lab)
+            self.dups.append((dl, attr))
+            self.trail.append(f"dup_unique dataset/{dl}/{attr} += {lab!r}")
+            return op
+        if op == "undup":
+            if not self.dups:
+                return "noop"
+            dl, attr = self.dups.pop(i % len(self.dups))
+            getattr(self.model.dataset[dl], attr).pop()
+            spec["dataset"][dl][attr].pop()
+            self.orig.pop(("dataset", dl, attr, len(spec["dataset"][dl][attr])), None)
+            self.trail.append(f"undup dataset/{dl}/{attr}")
+            return op
+        return "noop"
+
+    def probe(self, name: str):
+        """(reported valid?, report text or None) of one validation entry point on the live objects."""
+        m, p = self.model, self.params
+        if name == "validate":
+            text = str(m.validate(p))
+        elif name == "validate0":
+            text = str(m.validate())
+        elif name == "scheme_validate":
+            text = str(self.scheme.validate())
+        elif name == "valid":
+            return m.valid(p), None
+        elif name == "valid0":
+            return m.valid(), None
+        elif name == "scheme_valid":
+            return self.scheme.valid(), None
+        elif name in ("issues", "issues0"):
+            issues = m.get_issues(parameters=p if name == "issues" else None)
+            return len(issues) == 0, "\n".join(i.to_string() for i in issues)
+        else:
+            raise ValueError(name)
+        return text == VALID_TEXT, text
+
+
+def _check_probe(live: _Live, name: str, last: str, at: str):
+    from vlib.core import innermost_repo_frame
+
+    with_params = not name.endswith("0")
+    items, pars, uniq = expected_issues(live.spec, live.mparams)
+    dangling = items + (pars if with_params else [])
+    hist = f"{at}, {name}; edits so far: {' | '.join(live.trail[-5:]) or '-'}"
+    try:
+        ok, text = live.probe(name)
+    except Exception as e:  # noqa: BLE001
+        raise Violation("hist.internal_error", f"{type(e).__name__}: {str(e)[:200]} @ {innermost_repo_frame(e)} [{hist}]") from e
+    if not dangling and not uniq:
+        check(ok is True, f"hist.reports_issue_after[{last}]",
+              lambda: f"every reference of the model resolves now, reported: {('invalid' if text is None else text[:300])!r} [{hist}]")
+        return True
+    want = sorted({p["label"] for p in dangling}) + [u["where"] + " unique" for u in uniq]
+    clause = f"hist.unreported_after[{last}]"
+    check(ok is False, clause, lambda: f"reported valid although {want} dangle now [{hist}]")
+    if text is not None:
+        for p in dangling:
+            check(f"'{p['label']}'" in text, clause,
+                  lambda: f"report does not name '{p['label']}' ({p['where']}) which dangles now: {text[:300]!r} [{hist}]")
+        for u in uniq:
+            check("unique" in text.lower() and any(f"'{lab}'" in text for lab in u["labels"]), clause,
+                  lambda: f"report has no unique violation naming one of {u['labels']} ({u['where']}): {text[:300]!r} [{hist}]")
+    return False
+
+
+def prop_history(case):
+    """validate - edit in place - validate again ... on one model object and one Parameters object."""
+    _require_valid_base(case)
+    live = _Live(case)
+    last, n_edits, flips, state = "none", 0, set(), True
+    tags = set()
+    for name in case["first_probes"]:
+        _check_probe(live, name, last, "before the first edit")
+    for k, step in enumerate(case["steps"]):
+        done = live.apply(step)
+        if done in EDIT_OPS:
+            last = done
+            n_edits += 1
+            tags.add(f"op:{done}")
+        for name in step["probes"]:
+            now = _check_probe(live, name, last, f"step {k} ({done})")
+            tags.add(f"probe:{name}")
+            if name.endswith("0"):
+                continue  # the verdict without parameters is another one; flips are counted on the full verdict
+            if now != state:
+                flips.add("flip:to_valid" if now else "flip:to_invalid")
+                state = now
+    return {"nontrivial": n_edits >= 2 and bool(flips), "tags": sorted(tags | flips | live.notes)}
+
+
+# ------------------------------------------------------------------------------------------
 # extra engine (thorough tier only): atheris through hypothesis.fuzz_one_input on the same grammar
 
 
@@ -678,6 +935,17 @@ def selfcheck():
     lab, v = fresh_label(spec, {"x1": 1}, next(q for q in poss if q["where"] == "dataset.irf"), 1)
     assert v == "defined_elsewhere" and lab not in spec["irf"]
     assert len(_unique_exclusive_mutations(spec)) == 2 * (2 * 2 + 1)
+    # the history oracle on the same specification, by hand
+    allp = set(pars)
+    assert expected_issues(spec, allp) == ([], [], [])
+    s2 = copy.deepcopy(spec)
+    del s2["irf"]["i"]  # dataset d -> irf 'i' dangles; the 9 irf parameters are no longer referenced
+    it, pa, un = expected_issues(s2, allp - {"c", "sc"})
+    assert [(p["where"], p["label"]) for p in it] == [("dataset.irf", "i")] and [p["label"] for p in pa] == ["sc"] and un == []
+    s2["dataset"]["d"]["megacomplex"] += ["m5", "nope"]
+    s2["dataset"]["d"]["group"] = "default"
+    it, pa, un = expected_issues(s2, allp)
+    assert sorted(p["label"] for p in it) == ["i", "nope"] and pa == [] and un == [{"where": "dataset/d/megacomplex", "labels": ["m5", "m5"], "type": "baseline"}]
     assert G.to_python_spec(spec)["k_matrix"]["k1"]["matrix"] == {("s2", "s1"): "p1", ("s2", "s2"): "p2"}
 
 
@@ -693,7 +961,12 @@ PROPERTY = Property(
         "Per generated model every reference position of the independent table REFS is mutated in turn (rename to an undefined label: "
         "fresh / defined only in another section / near miss; remove each referenced parameter; duplicate unique and combine exclusive "
         "megacomplexes in megacomplex and global_megacomplex). A case is non-trivial if a mutated reference sits at nesting depth >= 2 "
-        "or inside a list/dict-valued attribute; distinct = distinct case digest."
+        "or inside a list/dict-valued attribute; distinct = distinct case digest. "
+        "Histories (sub-check hist): a generated model plus 2-12 steps interpreted on ONE model object and ONE Parameters object "
+        "(rename / repair a reference position, delete / restore a definition, remove / return a parameter, duplicate / un-duplicate a "
+        "unique megacomplex, no-op), each step followed by 1-3 generated validation calls (validate, valid, get_issues, with and "
+        "without parameters, Scheme.validate / valid of a scheme made before the first edit); the oracle recomputes the dangling set "
+        "from a JSON mirror of the edits; non-trivial = >= 2 edits and the expected verdict flipped at least once."
     ),
     subs=[
         # fewer shards in the quick tier: every process that evaluates pays ~10 s of numba JIT once
@@ -710,6 +983,9 @@ PROPERTY = Property(
             doc="every parameter reference renamed in turn, every referenced parameter removed in turn"),
         Sub("uniq", prop=prop_unique_exclusive, strategy=lambda: G.models(), budget={"quick": 240, "thorough": 20000},
             doc="unique megacomplexes duplicated (same label / sibling of the same type), exclusive ones combined"),
+        Sub("hist", prop=prop_history, strategy=lambda: G.histories(), budget={"quick": 400, "thorough": 40000},
+            doc="one model object + one Parameters object: validate, edit in place (misspell / repair a reference, delete / restore a "
+                "definition, remove / return a parameter, duplicate a unique megacomplex), validate again through any entry point"),
         Sub("fuzz", prop=prop_fuzz_replay, custom=fuzz_custom,
             doc="thorough tier only: atheris (coverage-guided) via hypothesis.fuzz_one_input on the grammar, all mutation sub-checks"),
     ],
@@ -717,6 +993,9 @@ PROPERTY = Property(
         "the reference table REFS (type annotations of the documented item classes) is the specification of what is a reference",
         "a report 'names' a label when it contains the label in single quotes; unique/exclusive reports contain that word and a label",
         "weights[].datasets, clp targets/sources and compartments are plain strings (not references) per their annotations",
+        "hist: every validation call answers for the model and parameters as they are at the time of the call (items and sections are "
+        "mutable objects); a Parameters object serves the dictionary it was constructed with - each edit of it is confirmed through "
+        "Parameters.has() before it counts, else the step is a no-op",
         "evaluation errors other than KeyError on a model/parameter label, ParameterNotFoundException, AttributeError on str, "
         "ModelError 'Unknown dataset group' are outside C20 and counted as discards",
     ],
